@@ -36,6 +36,11 @@
 (* dev = TRUE and NOT applied; the driver shows on the real code whether   *)
 (* they are accepted and what balances result.  A third named deviation:   *)
 (* blocks that change the status of one producer twice (see Taint).        *)
+(*                                                                         *)
+(* Every Block entry of `log` carries `ck`, the <<change kind, subject>>   *)
+(* pairs of the block: the recipes select the behaviours to replay so that *)
+(* every change kind, and every set of different changes one block applies *)
+(* to one subject, is replayed (tools/props/dpos_common.py tags / pick).   *)
 (***************************************************************************)
 EXTENDS Integers, Sequences, FiniteSets, TLC, Json
 
@@ -250,7 +255,10 @@ ItemCh(S_, h, it, vid) ==
               IF it.p \in V2Reg THEN SU ELSE 0, NoO)>>
     [] it.k = "Upd" ->
          <<Ch("upd", it.p, "-", it.x, 0, [nick |-> r.nick, ident |-> r.ident, su |-> r.su])>>
-    [] it.k = "Can" -> <<Ch("cancel", it.p, "-", 0, 0, [st |-> r.st])>>
+    \* cancelAgain: a producer that was canceled before (canceled, then made Illegal by evidence, activated again);
+    \* its pre-block cancelHeight is not 0
+    [] it.k = "Can" -> <<Ch(IF r.cancelH = 0 THEN "cancel" ELSE "cancelAgain", it.p, "-", 0, 0,
+                            [st |-> r.st, cancelH |-> r.cancelH])>>
     [] it.k = "Act" -> IF Exists(S_, it.p) THEN <<Ch("actreq", it.p, "-", 0, 0, [actReq |-> r.actReq])>> ELSE <<>>
     [] it.k = "Vote1" ->
          \* processVotes: the vote output is recorded; the producer is credited if it exists now
@@ -353,7 +361,7 @@ Ex(S_, c, h) ==
          SP([r EXCEPT !.nick = 1 - c.o.nick,
                       !.su = IF c.x = 1 THEN SU ELSE c.o.su,
                       !.ident = IF c.x = 1 /\ @ = "V1" THEN "V1V2" ELSE @])
-    [] c.k = "cancel" ->
+    [] c.k \in {"cancel", "cancelAgain"} ->
          SP([r EXCEPT !.st = "Canceled", !.cancelH = h,
                       !.maps = IF c.o.st = "Pending" THEN ((@ \cup {"Canceled", "PendingCanceled"}) \ {"Pending"})
                                ELSE IF c.o.st \in {"Active", "Inactive"} THEN ((@ \cup {"Canceled"}) \ {c.o.st})
@@ -423,8 +431,8 @@ Un(S_, c) ==
   IN
   CASE c.k = "reg"      -> SP(NoProd)
     [] c.k = "upd"      -> SP([r EXCEPT !.nick = c.o.nick, !.su = c.o.su, !.ident = c.o.ident])
-    [] c.k = "cancel"   ->
-         SP([r EXCEPT !.st = c.o.st, !.cancelH = 0,
+    [] c.k \in {"cancel", "cancelAgain"} ->
+         SP([r EXCEPT !.st = c.o.st, !.cancelH = c.o.cancelH,
                       !.maps = IF c.o.st = "Pending" THEN ((@ \cup {"Pending"}) \ {"Canceled", "PendingCanceled"})
                                ELSE IF c.o.st \in {"Active", "Inactive"} THEN ((@ \cup {c.o.st}) \ {"Canceled"})
                                ELSE @ \ {"Canceled"}])
@@ -527,7 +535,7 @@ Changes2Utxo(U0, txs) ==
 \* maps is canceled twice and its locked deposit goes negative.  Recorded finding; such
 \* blocks are a named deviation (why = "two-status-changes"): logged, not applied, and
 \* shown on the real code by the driver.
-StatusCh(c) == \/ c.k \in {"cancel", "illegalA", "illegalI", "illegalL", "illegalC", "emerg",
+StatusCh(c) == \/ c.k \in {"cancel", "cancelAgain", "illegalA", "illegalI", "illegalL", "illegalC", "emerg",
                            "promoteP", "promoteI", "promoteL", "expProd", "expProdAgain"}
                \/ (c.k = "spMiss" /\ c.o.cnt + 1 >= MaxInactive)
 Taint(cs) == {p \in P : Cardinality({i \in 1..Len(cs) : cs[i].p = p /\ StatusCh(cs[i])}) >= 2}
